@@ -274,6 +274,28 @@ def catalogue():
     c.append(("cat|else-if-without-else-returns", "f = fn(a: int) -> int {\n\tif a > 0 {\n\t\treturn 1\n\t} else if a < 0 {\n\t\treturn 2\n\t}\n}\nprint \"@run\"\n" + probe("f(0)")))
     c.append(("cat|loop-only-return", "f = fn(a: int) -> int {\n\tfrom 0 to a {\n\t\treturn 1\n\t}\n}\nprint \"@run\"\n" + probe("f(0)")))
     c.append(("cat|while-only-return", "f = fn(a: int) -> int {\n\twhile a > 0 {\n\t\treturn 1\n\t}\n}\nprint \"@run\"\n" + probe("f(0)")))
+    # return analysis behind loops that may be left early (continue / break in front of the return), in a final else
+    c.append(("cat|while-continue-then-return", "f = fn(a: int) -> int {\n\tn = 0\n\twhile n < a {\n\t\tn = n + 1\n\t\tif n > 0 {\n\t\t\tcontinue\n\t\t}\n\t\treturn 1\n\t}\n}\nprint \"@run\"\n" + probe("f(2)")))
+    c.append(("cat|while-all-branches-return", "f = fn(a: int) -> int {\n\twhile a > 0 {\n\t\tif a > 1 {\n\t\t\treturn 1\n\t\t} else {\n\t\t\treturn 2\n\t\t}\n\t}\n}\nprint \"@run\"\n" + probe("f(0)")))
+    c.append(("cat|else-ends-in-while", "f = fn(a: int) -> int {\n\tif a > 5 {\n\t\treturn 1\n\t} else {\n\t\twhile a > 0 {\n\t\t\treturn 2\n\t\t}\n\t}\n}\nprint \"@run\"\n" + probe("f(0)")))
+    # unpacking into ONE name; a field that holds a function; names of class aliases; lists whose element types only chain
+    c.append(("cat|single-name-unpack", "xs: [int...] = [7, 8]\nif true {\n}\n[a,] = xs\nprint \"@run\"\n" + probe("a") + probe("a + 1")))
+    c.append(("cat|single-name-unpack-no-comma", "xs: [str...] = [\"p\", \"q\"]\nif true {\n}\n[a] = xs\nprint \"@run\"\n" + probe("a") + probe("a.len()")))
+    c.append(("cat|single-name-unpack-in-function", "f = fn(ys: [int...]) -> int {\n\tif true {\n\t}\n\t[q] = ys\n\treturn q * 2\n}\nprint \"@run\"\n" + probe("f([4, 5])")))
+    FH = ("class H {\n\tcb: fn(int) -> int\n\tn: int\n\tconstructor(self, cb: fn(int) -> int) {\n\t\tself.cb = cb\n\t\tself.n = 3\n\t}\n\tfn run(self, v: int) -> int {\n\t\treturn self.cb(v) + self.n\n\t}\n}\n"
+          "k = 100\nh = H(fn(x: int) -> int {\n\treturn x * 2 + k\n})\nhs: [H...] = [h]\nprint \"@run\"\n")
+    c.append(("cat|function-typed-field-call", FH + probe("h.cb(21)") + probe("h.run(1)") + probe("(hs[0]).cb(5)") + "g = h.cb\n" + probe("g(4)")))
+    DOG = "class Dog {\n\tfn bark(self) -> str {\n\t\treturn \"woof\"\n\t}\n}\n"
+    c.append(("cat|class-alias-named-like-outer-variable", DOG + "x = 5\nprint \"@run\"\nif true {\n\ttype x Dog\n" + probe("x").replace("print", "\tprint") + "\td: Dog = x\n\tprint d.bark()\n}\n"))
+    c.append(("cat|class-alias-named-like-parameter", DOG + "f = fn(x: int) -> int {\n\tif x > 0 {\n\t\ttype x Dog\n\t\td: Dog = x\n\t\tprint d.bark()\n\t}\n\treturn x\n}\nprint \"@run\"\n" + probe("f(1)")))
+    c.append(("cat|class-alias-as-value", DOG + "type Pup Dog\nprint \"@run\"\nq = Pup\n" + probe("q")))
+    c.append(("cat|mixed-list-neighbours-compatible", "a: int? = 5\nc: str? = \"hello\"\nconst xs = [a, nil, c]\nprint \"@run\"\nv = xs.remove(2)\n" + probe("v") + "w = (get v) + 1\n" + probe("w")))
+    c.append(("cat|mixed-list-neighbours-compatible-index-of", "a: int? = 5\nc: str? = \"hello\"\nconst xs = [a, nil, c]\nprint \"@run\"\n" + probe("xs.index_of(a)") + probe("xs.filter(fn(e: int?) -> bool {\n\treturn true\n})")))
+    c.append(("cat|untyped-empty-list-two-element-types", "const e = []\nf = fn(xs: [str...]) {\n\txs.push(\"a\")\n}\ng = fn(xs: [int...]) -> int {\n\treturn xs[0] * 2\n}\nf(e)\nprint \"@run\"\n" + probe("g(e)")))
+    c.append(("cat|untyped-nested-empty-list", "const e = [[]]\nf = fn(xs: [[str...]...]) {\n\t(xs[0]).push(\"a\")\n}\ng = fn(xs: [[int...]...]) -> int {\n\treturn (xs[0])[0] * 2\n}\nf(e)\nprint \"@run\"\n" + probe("g(e)")))
+    NODE = "export class Node {\n\tvalue: int\n\tnext: Self?\n\tconstructor(self, value: int, next: Self?) {\n\t\tself.value = value\n\t\tself.next = next\n\t}\n\tfn next_value(self) -> int {\n\t\tn = get self.next\n\t\treturn n.value\n\t}\n}\n"
+    c.append(("cat|self-parameter-of-imported-class-gets-caller", "import Node from lib\nclass Wrapper {\n\tfn make(self) -> Node {\n\t\treturn Node(1, self)\n\t}\n}\nw = Wrapper()\nn = w.make()\nprint \"@run\"\n" + probe("n.next_value()"), {"lib.ms": NODE}))
+    c.append(("cat|self-parameter-of-imported-class-gets-instance", "import Node from lib\nclass Wrapper {\n\tfn make(self) -> Node {\n\t\ta = Node(1, nil)\n\t\treturn Node(2, a)\n\t}\n}\nw = Wrapper()\nn = w.make()\nprint \"@run\"\n" + probe("n.next_value()"), {"lib.ms": NODE}))
     c.append(("cat|void-call-as-value", "f = fn() {\n}\nprint \"@run\"\nx = f()\nprint x\n"))
     c.append(("cat|map-missing-key-arith", "m = map[str, int] {\"a\": 1}\nprint \"@run\"\n" + probe("m[\"zz\"]") + "y = m[\"zz\"] + 1\nprint y\n"))
     c.append(("cat|list-of-optional-arith", "l: [int?...] = [1, nil]\nprint \"@run\"\nx = l[0] + 1\nprint x\n"))
